@@ -206,6 +206,16 @@ func (m *Machine) replay() {
 			}
 			mon.exitSeq[e.Job][e.Task] = e.Seq
 			mon.exitOK[e.Job][e.Task] = e.OK
+			if !e.OK && j.Bad == "" {
+				// the same clause seen from the other end: nothing that depends on the task that fails now
+				// has been handed to the runner before (it cannot have: its dependencies were not finished)
+				for _, name := range sortedTaskNames(j.Def.Tasks) {
+					if mon.entered[e.Job][name] != 0 && Ancestors(j.Def.Tasks, name)[e.Task] {
+						m.fail("C08", "job #%d: task %s fails (seq %d) after task %s, which depends on it, was run", j.AcceptIdx, e.Task, e.Seq, name)
+						m.fail("C02", "job #%d: task %s was run before its dependency %s had finished", j.AcceptIdx, name, e.Task)
+					}
+				}
+			}
 		case EvCancel:
 			mon.cancels[e.Job]++
 			if mon.cancels[e.Job] > j.ExpectCancelCalls && !j.CancelPermitted {
